@@ -106,6 +106,36 @@ func compareSchema(r *rep.Report, a *analysed, reply map[string]any, real map[st
 			if !found {
 				r.Disagree(rep.Disagreement{Tie: "c08.create-table", Input: map[string]any{"case": a.Case.ID, "table": name, "sources": a.Case.Sources()}, Model: tm["create"], Impl: got})
 			}
+			// the Go side directly: the id field, and only it, is `serial PRIMARY KEY`
+			if got != "" {
+				idField := ""
+				for _, dd := range a.Env.Decls {
+					if dd.Kind == "struct" && dd.Name == name && dd.PkgPath == a.Env.PkgPath {
+						for _, f := range dd.Fields {
+							if f.GoExported && strings.EqualFold(f.Name, "id") && idField == "" {
+								idField = f.Name
+							}
+						}
+					}
+				}
+				var pk []string
+				for _, line := range strings.Split(got, "\n") {
+					if strings.Contains(line, "PRIMARY KEY") {
+						if fl := strings.Fields(line); len(fl) > 0 {
+							pk = append(pk, fl[0])
+						}
+					}
+				}
+				wantPK := []string{}
+				if idField != "" {
+					wantPK = append(wantPK, idField)
+				}
+				if strings.Join(pk, ",") != strings.Join(wantPK, ",") {
+					r.Fail(rep.Failure{Signature: "c08:primary-key-column", What: fmt.Sprintf("table %s: PRIMARY KEY on %v, the id field is %v", name, pk, wantPK), Input: in, Observed: got})
+				} else if idField != "" && !strings.Contains(sqlTokens(got), idField+" serial PRIMARY KEY") {
+					r.Fail(rep.Failure{Signature: "c08:primary-key-column", What: "table " + name + ": the id column is not `serial PRIMARY KEY`", Input: in, Observed: got})
+				}
+			}
 			for _, c := range tm["composites"].([]any) {
 				cm := c.(map[string]any)
 				if sqlTokens(real["aaa_"+cm["name"].(string)]) != sqlTokens(cm["text"].(string)) {
